@@ -144,10 +144,58 @@ def cases(rng, tier):
         else:
             ops = shardprop.gen_history(rng, rng.range(6, 22), ntypes, nctx, p_restart=0)
             out.append(shardprop.mk_case("history", cfg, ntypes, nctx, ops))
-    return out + large_cases(rng.fork("large"), tier)
+    return out + large_cases(rng.fork("large"), tier) + mailbox_cases(rng.fork("mailbox"), tier)
+
+
+def mailbox_cases(rng, tier):
+    """Oracle-only: the shard worker is parked inside a STORE, more STOREs than the shard mailbox holds (8096) arrive
+    concurrently, the shard stays busy for longer than the handler's send time-out, then drains.  Every STORE that
+    was answered 200 must be readable exactly once (an answer under back-pressure must not promise what is dropped)."""
+    out = []
+    for j in range(1 if tier == "quick" else 3):
+        n = rng.range(8150, 8400)
+        cfg = {"fill_factor": 20, "event_per_zone": 1000, "shards": 1}
+        script = [("cmd", 'DEFINE t0 FIELDS { k: "int" }'), ("raw", "!park st_wal_sent"),
+                  ("raw", 'STORE t0 FOR c00 PAYLOAD {"k": 0}' if False else '!bg STORE t0 FOR c00 PAYLOAD {"k": 0}'),
+                  ("raw", "!wait_parked st_wal_sent 3000"),
+                  ("raw", f'!blast {n} 1 STORE t0 FOR c01 PAYLOAD {{"k": {{i}}}}'),
+                  ("raw", f"!sleep {rng.range(1300, 1800)}"), ("raw", "!release st_wal_sent"), ("raw", "!join"),
+                  ("quiesce",), ("raw", "!sleep 300"), ("cmd", "QUERY t0 RETURN [k]")]
+        out.append({"kind": "mailbox", "cfg": cfg, "script": [list(x) for x in script], "n": n,
+                    "show": f"mailbox: shard parked inside a STORE, {n} concurrent STOREs (mailbox 8096), shard busy > 1 s, drain, QUERY"})
+    return out
 
 
 def run_sides(cases_, model_ok):
+    from props import englib
+    mb = [c for c in cases_ if c.get("kind") == "mailbox"]
+    mbi = []
+    for c in mb:
+        r = englib.run_script(c)
+        res = [x for x in r.get("res", []) if x is not None]
+        bl = next((x["blast"] for x in res if "blast" in x), None)
+        q = res[-1] if res else {}
+        ks = [row.get("k") for row in (q.get("rows") or [])]
+        import collections as _c
+        acked = set([0] + (bl or {}).get("ok", []))
+        mbi.append({"ok": r.get("ok") and bl is not None, "err": r.get("err"), "line": "mailbox", "obs": [],
+                    "acked": len(acked), "busy": len((bl or {}).get("busy", [])), "other": (bl or {}).get("other", [])[:5],
+                    "status": q.get("status"), "rows": len(ks),
+                    "missing": sorted(acked - set(ks))[:10], "repeated": sorted(k for k, m in _c.Counter(ks).items() if m > 1)[:10]})
+    it_mb = iter(mbi)
+    rest = [c for c in cases_ if c.get("kind") != "mailbox"]
+    ri, rm = _run_sides_rest(rest, model_ok) if rest else ([], [])
+    it_ri, it_rm = iter(ri), iter(rm)
+    impl, model = [], []
+    for c in cases_:
+        if c.get("kind") == "mailbox":
+            impl.append(next(it_mb)); model.append(None)
+        else:
+            impl.append(next(it_ri)); model.append(next(it_rm))
+    return impl, model
+
+
+def _run_sides_rest(cases_, model_ok):
     from props import englib
     sh = [c for c in cases_ if c.get("kind") != "large"]
     lg = [c for c in cases_ if c.get("kind") == "large"]
@@ -175,7 +223,7 @@ def run_sides(cases_, model_ok):
 
 
 def diffs(c, impl, model):
-    if c.get("kind") == "large":
+    if c.get("kind") in ("large", "mailbox"):
         return []
     d = shardprop.diffs(c, impl, model)
     if c.get("kind") == "flush-fails":
@@ -193,6 +241,14 @@ def same(c, impl, model):
 
 
 def oracle(c, impl):
+    if c.get("kind") == "mailbox":
+        if not impl.get("ok"):
+            return "engine harness: " + str(impl.get("err"))
+        if impl["status"] != 200 or impl["missing"] or impl["repeated"] or impl["other"]:
+            return (f"mailbox saturation: {impl['acked']} STOREs were answered 200 ({impl['busy']} answered 503), the read after the "
+                    f"drain returns {impl['rows']} rows: acknowledged events missing e.g. {impl['missing'][:5]}, returned twice e.g. "
+                    f"{impl['repeated'][:5]}, answers that are neither 200 nor 503 e.g. {impl['other'][:3]} (status {impl['status']})")
+        return None
     if c.get("kind") == "large":
         if not impl.get("ok"):
             return "engine harness: " + str(impl.get("err"))
@@ -246,6 +302,8 @@ def classify(c, impl, model=None):
 
 
 def nontrivial_key(c, impl):
+    if c.get("kind") == "mailbox":
+        return c["show"] if impl.get("ok") and impl.get("busy") else None
     if c.get("kind") == "large":
         return c["show"] if impl.get("ok") else None
     if impl.get("obs") and any(o["dirs"] for o in impl["obs"]):
